@@ -35,6 +35,8 @@ const (
 var LayoutForce = -1
 
 type arena struct {
+	keep bool
+	kept [][]byte
 	mode int
 	buf  []byte
 	tp   map[uint8][]*message.Transform // per transform type pool (LayoutArena)
@@ -53,6 +55,14 @@ func newArena(mode int, size int) *arena {
 }
 
 func (a *arena) bytes(b []byte) []byte {
+	o := a.bytes0(b)
+	if a.keep && len(o) > 0 {
+		a.kept = append(a.kept, o)
+	}
+	return o
+}
+
+func (a *arena) bytes0(b []byte) []byte {
 	if len(b) == 0 {
 		return nil
 	}
@@ -344,6 +354,14 @@ func buildPayload(p abs.Payload, a *arena) (message.IKEPayload, error) {
 
 func BuildEAP(e *abs.EAP) (*eap.EAP, error) {
 	return buildEAP(e, newArena(LayoutPrivate, 0))
+}
+
+// BuildEAPKeepingBuffers also returns the very slices that were handed to the setters (the caller's buffers).
+func BuildEAPKeepingBuffers(e *abs.EAP) (*eap.EAP, [][]byte, error) {
+	a := newArena(LayoutPrivate, 0)
+	a.keep = true
+	le, err := buildEAP(e, a)
+	return le, a.kept, err
 }
 
 func buildEAP(e *abs.EAP, a *arena) (*eap.EAP, error) {
